@@ -22,16 +22,31 @@ def sh(cmd, **kw):
 
 
 def main():
-    seed_dir, k = sys.argv[1], sys.argv[2]
     props = None
     if '--props' in sys.argv:
         props = sys.argv[sys.argv.index('--props') + 1].split(',')
-    out = os.path.join(seed_dir, '_out')
-    diff = os.path.join(out, 'mutant%s.diff' % k)
-    demo = os.path.join(out, 'demo%s.py' % k)
-    meta = json.load(open(os.path.join(out, 'meta%s.json' % k)))
-    prop = meta.get('property')
-    sid = '%s_%s' % (prop, k)
+    if sys.argv[1] == '--re':
+        # re-evaluate a change already kept under /verif/seeded/<id>
+        sid = sys.argv[2]
+        d = os.path.join(VERIF, 'seeded', sid)
+        old = json.load(open(os.path.join(d, 'meta.json')))
+        diff = '/tmp/_re_%s.diff' % sid
+        demo = '/tmp/_re_%s_demo.py' % sid
+        shutil.copy(os.path.join(d, 'patch.diff'), diff)
+        shutil.copy(os.path.join(d, 'demo.py'), demo)
+        meta = {'property': old['property'], 'what_changed': old.get('breaks'), 'file': old.get('file'),
+                'function': old.get('function'), 'needs_to_manifest': old.get('needs_to_manifest')}
+        prop = old['property']
+    else:
+        seed_dir, k = sys.argv[1], sys.argv[2]
+        out = os.path.join(seed_dir, '_out')
+        diff = os.path.join(out, 'mutant%s.diff' % k)
+        demo = os.path.join(out, 'demo%s.py' % k)
+        meta = json.load(open(os.path.join(out, 'meta%s.json' % k)))
+        prop = meta.get('property')
+        sid = '%s_%s' % (prop, k)
+        if '--suffix' in sys.argv:
+            sid += sys.argv[sys.argv.index('--suffix') + 1]
     wt = '/tmp/wt_eval_%s' % sid
     sh('git -C %s worktree remove --force %s' % (REPO, wt))
     r = sh('git -C %s worktree add -q %s HEAD' % (REPO, wt))
